@@ -47,6 +47,14 @@ CHECKS = {
          "enumeration depth, 4-5 tasks sampled. Exhaustive over the enumerated schedules only.",
          "scripted transport tags every call with the calling task; TracedECU subclass only adds entry/exit records. " + TRUST,
          "DESIGN.md section 4, C05"),
+ "C08": ("TLA+ model of request / cut / peer restart / reconnect (Reconnect.tla, liveness Cut ~> ended) model-checked by TLC; "
+         "loss monitor (LossContract L1-L4) used by TLC to validate traces of the real tcp-lines, unix-lines, DoIP and HSFZ "
+         "transports and of UDSClient.request() with the peer cutting at every byte offset of its answer",
+         "Every cut point (each frame boundary and byte offset, before the request, after the answer) x {EOF, reset, silence} "
+         "x 4 transports x caller timeout on/off x cut delay; client level x max_retry 0..2 x restart delays; all traces "
+         "validated by TLC. Exhaustive over that family only; real kernel sockets are not used.",
+         "in-memory streams emulate EOF/reset the way asyncio's selector transport reports them (call_soon). " + TRUST,
+         "DESIGN.md section 4, C08"),
 }
 PENDING = {}
 
